@@ -535,6 +535,97 @@ theorem plan_of_conform (l : List FEv) (h : FragConform l) : Plan [] l := by
     | cons m r => simp only [Tail, msgLen, List.length_nil]; omega
   · simpa using hfr
 
+/-- the buffer after feeding the pieces of a cut of the first `n` stream bytes one by one through `consume` -/
+theorem bufAfter_eq (msgs : List HsMsg) (hok : ∀ m ∈ msgs, MsgOk m) (frs : List Bytes) (n : Nat)
+    (hcut : frs.flatten = (encMsgs msgs).take n) (hn : n ≤ (encMsgs msgs).length) :
+    frs.foldl (fun buf f => (consume (buf ++ f).length (buf ++ f)).2) []
+      = ((encMsgs msgs).take n).drop (encMsgs (completed msgs n).1).length := by
+  -- generalised: `done` messages consumed, `t` buffered
+  have gen : ∀ (frs : List Bytes) (rm : List HsMsg) (t : Bytes) (k : Nat), (∀ m ∈ rm, MsgOk m) → Tail t rm →
+      t ++ frs.flatten = (encMsgs rm).take k → k ≤ (encMsgs rm).length →
+      frs.foldl (fun buf f => (consume (buf ++ f).length (buf ++ f)).2) t
+        = ((encMsgs rm).take k).drop (encMsgs (completed rm k).1).length := by
+    intro frs
+    induction frs with
+    | nil =>
+      intro rm t k hok htail hstr hk
+      simp only [List.flatten_nil, List.append_nil] at hstr
+      simp only [List.foldl_nil]
+      have hkl : k = t.length := by rw [hstr, List.length_take]; omega
+      cases rm with
+      | nil => simp [encMsgs] at hstr; simp [hstr, completed, encMsgs]
+      | cons m r =>
+        simp only [Tail] at htail
+        have hnot : ¬ msgLen m ≤ k := by omega
+        have hc : completed (m :: r) k = ([], m :: r) := by simp [completed, hnot]
+        have e0 : (encMsgs ([] : List HsMsg)).length = 0 := rfl
+        rw [hc, e0, List.drop_zero]
+        exact hstr
+    | cons f fr ih =>
+      intro rm t k hok htail hstr hk
+      simp only [List.flatten_cons] at hstr
+      simp only [List.foldl_cons]
+      obtain ⟨c1, c2, c3, c4⟩ := completed_spec rm (t.length + f.length)
+      generalize hnw : (completed rm (t.length + f.length)).1 = nw at *
+      generalize hrm' : (completed rm (t.length + f.length)).2 = rm' at *
+      have henc : encMsgs rm = encMsgs nw ++ encMsgs rm' := by rw [c1, encMsgs_append]
+      have hkge : t.length + f.length ≤ k := by
+        have := congrArg List.length hstr
+        simp only [List.length_append, List.length_take] at this
+        omega
+      have htf : t ++ f = (encMsgs rm).take (t.length + f.length) := by
+        have : t ++ f = ((encMsgs rm).take k).take (t.length + f.length) := by
+          rw [← hstr, ← List.append_assoc, List.take_left' (by simp)]
+        rw [this, List.take_take, Nat.min_eq_left hkge]
+      have htb : t ++ f = encMsgs nw ++ (encMsgs rm').take (t.length + f.length - (encMsgs nw).length) := by
+        rw [htf, henc, List.take_append, List.take_of_length_le c2]
+      have hLle : t.length + f.length ≤ (encMsgs rm).length := by omega
+      have htl : ((encMsgs rm').take (t.length + f.length - (encMsgs nw).length)).length
+          = t.length + f.length - (encMsgs nw).length := by
+        rw [List.length_take]; rw [henc, List.length_append] at hLle; omega
+      have hok' : ∀ m ∈ rm', MsgOk m := fun m hm => hok m (by rw [c1]; exact List.mem_append_right _ hm)
+      have hoknw : ∀ m ∈ nw, MsgOk m := fun m hm => hok m (c4 m hm)
+      have htail' : Tail ((encMsgs rm').take (t.length + f.length - (encMsgs nw).length)) rm' := by
+        cases hr : rm' with
+        | nil => simp [Tail, encMsgs]
+        | cons m r' => have := c3 m r' hr; simp only [Tail]; rw [← hr, htl]; exact this
+      have hinc : Incomplete ((encMsgs rm').take (t.length + f.length - (encMsgs nw).length)) := by
+        cases hr : rm' with
+        | nil => left; simp [encMsgs]
+        | cons m r' => rw [encMsgs_cons]; exact incomplete_prefix m (hok' m (by rw [hr]; simp)) _ _ (c3 m r' hr)
+      have hcons := consume_msgs nw hoknw _ hinc (t ++ f).length (by
+        rw [htb]; have := encMsgs_length_ge nw; simp only [List.length_append]; omega)
+      rw [← htb] at hcons
+      rw [hcons]
+      -- the rest of the pieces against the remaining messages
+      have hstr' : (encMsgs rm').take (t.length + f.length - (encMsgs nw).length) ++ fr.flatten
+          = (encMsgs rm').take (k - (encMsgs nw).length) := by
+        have h1 : (t ++ f) ++ fr.flatten = (encMsgs rm).take k := by rw [List.append_assoc]; exact hstr
+        rw [htb, henc, List.take_append, List.take_of_length_le (Nat.le_trans c2 hkge), List.append_assoc] at h1
+        exact List.append_cancel_left h1
+      have := ih rm' _ (k - (encMsgs nw).length) hok' htail' hstr' (by rw [henc, List.length_append] at hk; omega)
+      rw [this]
+      -- completed rm k = nw ++ completed rm' (k - |nw|)
+      have hcomp : ∀ (a b : List HsMsg) (K : Nat), (encMsgs a).length ≤ K →
+          completed (a ++ b) K = (a ++ (completed b (K - (encMsgs a).length)).1, (completed b (K - (encMsgs a).length)).2) := by
+        intro a
+        induction a with
+        | nil => intro b K _; simp [encMsgs]
+        | cons m a iha =>
+          intro b K hK
+          rw [encMsgs_cons, List.length_append, encMsg_length] at hK
+          have : msgLen m ≤ K := by omega
+          simp only [List.cons_append, completed, this, if_true]
+          rw [iha b (K - msgLen m) (by omega)]
+          simp only [encMsgs_cons, List.length_append, encMsg_length, List.cons_append]
+          have : K - msgLen m - (encMsgs a).length = K - (msgLen m + (encMsgs a).length) := by omega
+          rw [this]
+      rw [c1, hcomp nw rm' k (Nat.le_trans c2 hkge)]
+      simp only [encMsgs_append, List.length_append]
+      rw [List.take_append, List.take_of_length_le (Nat.le_trans c2 hkge), ← List.drop_drop, List.drop_left]
+  have := gen frs msgs [] n hok (by cases msgs <;> simp [Tail, msgLen] <;> omega) (by simpa using hcut) hn
+  exact this
+
 -- ------------------------------------------------------------------ when the walk is right
 theorem walk_msgs (ms : List HsMsg) (hok : ∀ m ∈ ms, MsgOk m) (pre : Bytes) (fuel : Nat) (hf : ms.length ≤ fuel) :
     walk (pre ++ encMsgs ms) fuel pre.length = ms.map (·.1) := by
